@@ -145,6 +145,21 @@ def cov_c10(st, tier):
     return base
 
 
+def cov_c16(st, tier):
+    ea, eb = st["parts"]["ea"], st["parts"]["eb"]
+    base = cov_eb("", ["redeliveries", "position_checks", "cache_repeats_expected", "cache_repeats_identical", "queries_sent", "answers_seen"])(eb, tier)
+    base.update({
+        "states": eb["states"] + ea["execs"], "transitions": eb["transitions"] + ea["steps"],
+        "traces_validated_against_impl": eb["transitions"] + ea["execs"], "evaluations": eb["letters_applied"] + ea["execs"],
+        "distinct_nontrivial": eb["distinct_outcomes"] + ea["distinct_outcomes"],
+        "rule": "E-B part: state = distinct exact state (server image, users[], world, client model) reached by a letter sequence, transition = one letter applied to the real server loop. "
+                "E-A part: state = end state of one complete execution of real client+server with one re-delivery injected at one receive point, transition = one scheduler step. Every transition/execution is an implementation run. "
+                "distinct = distinct (letter, pending count, outputs, duplicate answers) classes (E-B) + distinct delivery outcome classes (E-A)",
+        "ea_part": {"executions": ea["execs"], "cells": ea["cells"], "redeliveries_injected": ea["counters"][10] if "counters" in ea else None, "wall_s": ea.get("wall_s")},
+    })
+    return base
+
+
 def cov_c14(st, tier):
     ea, eb = st["parts"]["ea"], st["parts"]["eb"]
     base = cov_ea("C14", "", ["answers", "max_pending"])(ea, tier)
@@ -333,12 +348,20 @@ PROPS = {
         "non-trivial/distinct = distinct (letter kind, argument, reply class sequence) outcomes observed",
         ["spoof_checks", "refused_spoofs", "routing_checks", "vacks", "expired_refused"],
         ["--depth", "4"], ["--depth", "5"]),
-    "C16": eb_entry("lazy.c", "C16",
-        "For one established session and each record type (lazy and immediate), every sequence up to the depth bound of {new ping, new data fragment (first/last), tun packets, +20 ms/+1 s, raw login, lazy on/off} interleaved with re-deliveries of the 1st/2nd/3rd/5th most recent ping or data query - unchanged, with a fresh DNS id, from a second relay port, upper-cased - is applied to the real server loop. At every re-delivery the session's upstream reassembly position and bytes and its downstream position/queue (read from the real users[] record) must be identical before and after, and when the original is among the last four distinct queries answered on the data path and the repeat is byte-identical in name and type, the repeat must get exactly one answer carrying the original's payload (decoded by the reference decoders).",
-        "The answer-cache model (last four distinct answered ping/data queries) lives in the harness. The end-to-end consequence (no packet delivered twice or corrupted after re-delivery) is part of the C01/C02 explorations, whose dup / dup-with-fresh-id fates re-deliver real client queries.",
-        "non-trivial/distinct = distinct (letter, pending count, outputs, duplicate answers) classes",
-        ["redeliveries", "position_checks", "cache_repeats_expected", "cache_repeats_identical", "queries_sent", "answers_seen"],
-        ["--depth", "5"], ["--depth", "6"]),
+    "C16": {
+        "engine": "E-B adversary + E-A netsim",
+        "parts": [
+            {"name": "eb", "harness": "lazy.c", "flavor": "ubsan", "images": (("s", "server"),), "args": ["--prop", "C16"],
+             "tier_args": {"quick": ["--depth", "5"], "thorough": ["--depth", "6"]}},
+            {"name": "ea", "harness": "ea.c", "flavor": "ubsan", "images": (("s", "server"), ("ca", "client")), "args": ["--prop", "C16"]},
+        ],
+        "tiers": {"quick": {"budget_s": 480}, "thorough": {"budget_s": 2400}},
+        "coverage": cov_c16,
+        "level_text": "(1) E-B: for one established session and each record type (lazy and immediate), every sequence up to the depth bound of {new ping, new data fragment (first/last), tun packets, +20 ms/+1 s, raw login, lazy on/off} interleaved with re-deliveries of the 1st/2nd/3rd/5th most recent ping or data query - unchanged, with a fresh DNS id, from a second relay port, upper-cased - and, from warmed-up start states (both 3-bit sequence numbers about to wrap, 24+ pings remembered), of every one of the 30 most recent queries, is applied to the real server loop. At every re-delivery the session's upstream reassembly position and bytes and its downstream position/queue (read from the real users[] record) must be identical before and after, and when the original is among the last four distinct queries answered on the data path and the repeat is byte-identical in name and type, the repeat must get exactly one answer carrying the original's payload (decoded by the reference decoders). (2) E-A: real client and server with multi-fragment packets both ways; at every query the server receives, each of the last eight received queries is re-delivered (unchanged / fresh id / upper-cased / fresh id from a second relay port), one re-delivery per execution: position invariance at the re-delivery, no fabricated packet, and every packet accepted later than one second after it still arrives, in order.",
+        "level_note": "The answer-cache model (last four distinct answered ping/data queries) lives in the harness. The E-A part does not demand exactly-once delivery of the packet in flight: a relay drops the second answer to a query it already answered, and C01 allows loss and repeats (first version of that oracle was a false alarm, see DESIGN.md 5.3).",
+        "technique": "explicit-state depth-bounded search over a client-message alphabet against the real server loop, plus stateless exploration of real client+server with one re-delivery at every receive point (deviation bound 1)",
+        "assumptions": EB_ASSUME + EA_ASSUME[2:],
+    },
     "C07": {
         "harness": "C07.c", "flavor": "asan", "images": (("s", "server"),), "engine": "E-C enumerators",
         "level_text": "Every case of four finite input families (all inputs up to 2 bytes x all capacities; all adjacent byte pairs at every block position; every length 0..4096; every (length<=72, capacity) pair for the chunking contract) is run through the real encode/decode entry points under ASan/UBSan and compared with an independent bit-stream reference; the enumeration is complete within those bounds, not sampled.",
